@@ -163,6 +163,8 @@ def define_adhoc(spec, dead=None):
             attrs[k] = rebuild(v)          # e.g. a ciphersuite's DST or hash function
         else:
             attrs[k] = _tuple_at(v, dead) if isinstance(v, list) else v
+    for hname, nested in (spec.get("hooks") or {}).items():
+        attrs[hname] = _make_hook(base, hname, nested)
     cls = None
     if dead:
         # object identity is a simulator decision too (fault kind F5): try to
@@ -180,6 +182,39 @@ def define_adhoc(spec, dead=None):
     cls.__module__ = "sim.adhoc"
     REG.add("adhoc.%s" % spec["name"], cls)
     return cls
+
+
+def _make_hook(base, hname, nested):
+    """a method a user subclass overrides (or a hash function a user suite plugs in)
+    which itself calls into the library before delegating: nested use on the same
+    thread while an outer library call is in progress (re-entrancy)"""
+    guard = {"active": False}
+
+    def run_nested():
+        if guard["active"]:
+            return
+        guard["active"] = True
+        try:
+            from . import ops as O
+            f = O.resolve_fn(nested["fn"])
+            args = [rebuild(c) for c in nested.get("args", ())]
+            try:
+                f(*args)
+            except Exception:
+                pass
+        finally:
+            guard["active"] = False
+    if hname == "xmd_hash_function":
+        def h(data=b""):
+            run_nested()
+            return hashlib.sha256(data)
+        return staticmethod(h)
+    parent = getattr(base, hname)
+
+    def hook(*a, **k):
+        run_nested()
+        return parent(*a, **k)
+    return staticmethod(hook)
 
 
 def _tuple_at(vals, dead, tries=3000):
@@ -835,6 +870,35 @@ def interp_state():
     ).hexdigest()[:16]
     st["random_state"] = hashlib.sha256(repr(random.getstate()).encode()).hexdigest()[:16]
     st["module_graph"] = module_graph_incoherence()
+    # the calling thread's decimal context (flags excepted: they record what happened),
+    # warnings filters, locale, thread stack size
+    try:
+        import decimal
+        c = decimal.getcontext()
+        st["decimal_context"] = [c.prec, c.rounding, c.Emin, c.Emax, c.capitals, c.clamp,
+                                 sorted(str(k.__name__) for k, v in c.traps.items() if v)]
+    except Exception:  # pragma: no cover
+        st["decimal_context"] = None
+    try:
+        import warnings
+        st["warnings_filters"] = hashlib.sha256(repr(
+            [(f[0], str(f[1]), getattr(f[2], "__name__", str(f[2])), str(f[3]), f[4])
+             for f in warnings.filters]).encode()).hexdigest()[:16]
+    except Exception:  # pragma: no cover
+        st["warnings_filters"] = None
+    try:
+        import locale
+        st["locale"] = list(locale.getlocale())
+    except Exception:
+        st["locale"] = None
+    # (threading.stack_size() without an argument *resets* the size to 0: read, put back)
+    try:
+        old = threading.stack_size()
+        if old:
+            threading.stack_size(old)
+        st["thread_stack_size"] = old
+    except Exception:  # pragma: no cover
+        st["thread_stack_size"] = None
     st["excepthook"] = sys.excepthook is sys.__excepthook__
     st["threading_excepthook"] = getattr(threading.excepthook, "__name__", "?")
     st["builtins"] = hashlib.sha256(repr(sorted(
